@@ -227,6 +227,8 @@ impl C12 {
                 w.geometry.position = None;
             }
         }
+        // the same surfaces with a redundant vertex on an edge (often the first one) or listed from another corner
+        crate::gen::model::vary_outlines(rng, &mut m, 0.2);
         // pitched roofs / tilted walls with set-back windows: turn some roofs' tilt (geometry stays planar)
         for w in m.walls.iter_mut() {
             if w.bounds == BoundaryType::EXTERIOR && w.geometry.tilt == 0.0 && rng.chance(0.3) {
@@ -243,7 +245,7 @@ impl Property for C12 {
         "C12"
     }
     fn rule(&self) -> String {
-        "generated buildings (grid buildings with absent cells = non-convex, turned; small = 1..30 obstacles, large = 31..400; random shades; windows flush and set back, on walls, flat and pitched roofs; elements with and without position) x climate zones, and real/shipped models; every window's reported f_shobst is compared with the mean over the July table hours of (s*beam+diffuse)/(beam+diffuse), s computed by an exact f64 ray/polygon test of the implementation's own sample points against every exterior/adiabatic wall, every shade and the window's own four reveal quads built from first principles; metamorphic: adding a wall or shade never raises any factor; enclosed window = diffuse share; unobstructed window >= 0.97; non-trivial = distinct window whose reference factor is below 0.995".into()
+        "generated buildings (grid buildings with absent cells = non-convex, turned; small = 1..30 obstacles, large = 31..400; random shades; windows flush and set back, on walls, flat and pitched roofs; a fifth of the outlines with a redundant vertex on an edge (so that they may start with three collinear points) or listed from another corner; elements with and without position) x climate zones, and real/shipped models; every window's reported f_shobst is compared with the mean over the July table hours of (s*beam+diffuse)/(beam+diffuse), s computed by an exact f64 ray/polygon test of the implementation's own sample points against every exterior/adiabatic wall, every shade and the window's own four reveal quads built from first principles; metamorphic: adding a wall or shade never raises any factor; enclosed window = diffuse share; unobstructed window >= 0.97; non-trivial = distinct window whose reference factor is below 0.995".into()
     }
     fn assumptions(&self) -> Vec<String> {
         vec![
